@@ -31,6 +31,9 @@ func checkC20(c *Ctx) {
 	// what the helper's call sites in this package pass
 	var namesOf func(f *ssa.Function, v ssa.Value, depth int) []string
 	namesOf = func(f *ssa.Function, v ssa.Value, depth int) []string {
+		if hv, hf := structHelperField(f, v); hv != nil && depth <= 2 {
+			return namesOf(hf, hv, depth+1)
+		}
 		prm, ok := v.(*ssa.Parameter)
 		if !ok || depth > 2 {
 			return []string{pathOf(v)}
@@ -342,6 +345,9 @@ func checkC20(c *Ctx) {
 
 // joinDirs returns the path of the first element joined by path.Join for value v ("" if v is not a Join call).
 func joinDirs(f *ssa.Function, v ssa.Value) string {
+	if hv, hf := structHelperField(f, v); hv != nil {
+		return joinDirs(hf, hv)
+	}
 	call, ok := v.(*ssa.Call)
 	if !ok {
 		return ""
@@ -696,4 +702,76 @@ func marshalsLiveConfig(f *ssa.Function, ms *ssa.Call) bool {
 		}
 	}
 	return true
+}
+
+// structHelperField: v is field k of a struct value that a helper of the package returned (names := a.files();
+// names.tmp): the value the helper put into that field of the composite it returns, and the helper. Only for
+// helpers with one return whose result is a struct built in place.
+func structHelperField(f *ssa.Function, v ssa.Value) (ssa.Value, *ssa.Function) {
+	var call *ssa.Call
+	field := -1
+	switch x := v.(type) {
+	case *ssa.Field:
+		call, _ = x.X.(*ssa.Call)
+		field = x.Field
+	case *ssa.UnOp:
+		// the struct is kept in a local: files := helper(); files.tmp
+		if fa, ok := x.X.(*ssa.FieldAddr); ok && x.Op == token.MUL {
+			if al, ok := fa.X.(*ssa.Alloc); ok && al.Referrers() != nil {
+				n := 0
+				for _, ref := range *al.Referrers() {
+					if st, ok := ref.(*ssa.Store); ok && st.Addr == ssa.Value(al) {
+						n++
+						call, _ = st.Val.(*ssa.Call)
+					}
+				}
+				if n != 1 {
+					call = nil
+				}
+				field = fa.Field
+			}
+		}
+	}
+	if call == nil || field < 0 {
+		return nil, nil
+	}
+	h := helperCallee(f, &call.Call)
+	if h == nil {
+		return nil, nil
+	}
+	var rets []*ssa.Return
+	eachInstr(h, func(in ssa.Instruction) {
+		if ret, ok := in.(*ssa.Return); ok && ret.Block().Comment != "recover" {
+			rets = append(rets, ret)
+		}
+	})
+	if len(rets) != 1 || len(rets[0].Results) != 1 {
+		return nil, nil
+	}
+	ld, ok := rets[0].Results[0].(*ssa.UnOp)
+	if !ok || ld.Op != token.MUL {
+		return nil, nil
+	}
+	al, ok := ld.X.(*ssa.Alloc)
+	if !ok || al.Referrers() == nil {
+		return nil, nil
+	}
+	var val ssa.Value
+	n := 0
+	for _, ref := range *al.Referrers() {
+		fa, ok := ref.(*ssa.FieldAddr)
+		if !ok || fa.Field != field || fa.Referrers() == nil {
+			continue
+		}
+		for _, r2 := range *fa.Referrers() {
+			if st, ok := r2.(*ssa.Store); ok && st.Addr == ssa.Value(fa) {
+				val = st.Val
+				n++
+			}
+		}
+	}
+	if n != 1 {
+		return nil, nil
+	}
+	return val, h
 }
